@@ -7,7 +7,8 @@ in-process PeerConnection pair; NACKs are observed at the publisher (C06).
 Ops:
   newup <cachesize> <packetrate> <firstseq>  => ok | setup-failed
   send <seq>                                 => stored | lost
-  nacks <waitms>                             => n s1 ... sn     (NACKed since the last `nacks`, sorted numerically)
+  nacks <waitms>                             => n s1 ... sn     (NACKed since the last `nacks`, sorted numerically; may lag)
+  nacksfinal <minms>                         => n s1 ... sn     (waits until the NACK stream is quiet; must be complete)
   getpacket <seq>                            => n               (rtpUpTrack.GetPacket(seq, buf, nack=true))
   stats                                      => received totalReceived expected totalExpected eseqno
 All packets are 17 bytes, none is a keyframe.
@@ -85,10 +86,29 @@ def step (st : St) (op impl : List String) : St × Verdict :=
       if impl = ["lost"] then ({ st with dead := true }, .ok)   -- UDP loss on loopback: abandon the case
       else (arrive st s, cmp "stored" impl)
     | none => (st, .badop "send")
-  | ["nacks", _] =>
-    let st := flushWriter st
+  | ["getpacket", seq] =>
+    match nat? seq with
+    | some s =>
+      let hit := match Cache.get st.ring s with | some e => e.bytes.length | none => 0
+      let st := if hit > 0 || st.buffered.contains s then st else { st with buffered := st.buffered ++ [s] }
+      ({ st with subscriberNacks := s :: st.subscriberNacks }, cmp (toString hit) impl)
+    | none => (st, .badop "getpacket")
+  | [kind, _] =>
+    if kind ≠ "nacks" && kind ≠ "nacksfinal" then
+      (st, .badop "unknown op")
+    else
+    let final := kind = "nacksfinal"
+    let st := if final then flushWriter st else st
     let model := sortNum st.pending
-    let v := cmp (" ".intercalate ((toString model.length) :: model.map toString)) impl
+    -- RTCP travels asynchronously: an intermediate `nacks` may report any sub-multiset of what the model
+    -- expects so far (the rest stays pending); `nacksfinal` (waits for quiescence) must report all of it
+    let implNs : List Nat := match impl.mapM nat? with | some (_ :: xs) => xs | _ => []
+    let leftover := implNs.foldl (fun (acc : List Nat) x => acc.erase x) model
+    let subOk := leftover.length + implNs.length = model.length
+    let v : Verdict :=
+      if final then cmp (" ".intercalate ((toString model.length) :: model.map toString)) impl
+      else if subOk then .ok
+      else .mismatch (" ".intercalate ((toString model.length) :: model.map toString) ++ " (or a sub-multiset)")
     let ov : Option String := match impl.mapM nat? with
       | some (_ :: xs) =>
         match xs.find? (fun s => st.snap2.contains s) with
@@ -106,15 +126,9 @@ def step (st : St) (op impl : List String) : St × Verdict :=
           | none => none
       | _ => some "bad nacks result"
     let nk := match impl.mapM nat? with | some (_ :: xs) => xs | _ => []
-    ({ st with pending := [], snap2 := st.snap1, snap1 := st.received, allNacked := nk ++ st.allNacked },
+    ({ st with pending := if final then [] else leftover, snap2 := st.snap1, snap1 := st.received,
+               allNacked := nk ++ st.allNacked },
       match ov with | some m => .oracle m | none => v)
-  | ["getpacket", seq] =>
-    match nat? seq with
-    | some s =>
-      let hit := match Cache.get st.ring s with | some e => e.bytes.length | none => 0
-      let st := if hit > 0 || st.buffered.contains s then st else { st with buffered := st.buffered ++ [s] }
-      ({ st with subscriberNacks := s :: st.subscriberNacks }, cmp (toString hit) impl)
-    | none => (st, .badop "getpacket")
   | ["stats"] =>
     let (_, o) := st.stats.getStats false
     let v := cmp s!"{o.received} {o.totalReceived} {o.expected} {o.totalExpected} {o.eseqno}" impl
